@@ -4,6 +4,8 @@
 //! Stand-ins: `tracing`, `lru`, `vcoll`.
 //! @needs: core mutable signed_announce put_query iterative_query
 use super::*;
+#[allow(unused_imports)]
+use crate::verif_env::k as kani;
 use crate::common::kani_h_mutable as mh;
 use crate::common::kani_h_signed_announce as sh;
 use crate::common::{
@@ -230,6 +232,21 @@ fn c07_o5_referrals_merged() {
     std::mem::forget(core);
 }
 
+static mut ERR_CALLS: crate::verif_env::Ghost<usize> = crate::verif_env::ghost(81, 0);
+static mut ERR_TARGET0: crate::verif_env::Ghost<u8> = crate::verif_env::ghost(82, 0);
+static mut ERR_CODE: crate::verif_env::Ghost<i32> = crate::verif_env::ghost(83, 0);
+/// `PutQuery::error` as a probe: which put was told about which code (the tally itself is the leaf
+/// obligations C08.O1a-f; inside a heap-allocated PutQuery its Vec growth has a symbolic capacity,
+/// which CBMC cannot afford)
+fn put_error_probe(q: &mut crate::core::PutQuery, e: ErrorSpecific) {
+    unsafe {
+        ERR_CALLS.v += 1;
+        ERR_TARGET0.v = q.target.as_bytes()[0];
+        ERR_CODE.v = e.code;
+    }
+    std::mem::forget(e);
+}
+
 fn put_reply_scenario(is_err: bool) {
     use crate::common::{AnnouncePeerRequestArguments, PutImmutableRequestArguments, PutRequestSpecific};
     use crate::core::PutQuery;
@@ -267,16 +284,14 @@ fn put_reply_scenario(is_err: bool) {
     let credit_b = which == 1 && !ro;
     assert!(a_acks == (credit_a && !is_err) as usize, "C08.O5/C18.O4 an ack is credited exactly to the owning put, never from a read-only reply");
     assert!(b_acks == (credit_b && !is_err) as usize, "C08.O5/C18.O4 an ack is credited exactly to the owning put, never from a read-only reply");
-    if credit_a && is_err {
-        assert!(a_errs == (1, 1, code), "C08.O5 an error is tallied once, with its code, for the owning put");
+    // errors: PutQuery::error is a probe here (who was told what)
+    let (calls, t0, c) = unsafe { (ERR_CALLS.v, ERR_TARGET0.v, ERR_CODE.v) };
+    if is_err && (credit_a || credit_b) {
+        assert!(calls == 1 && c == code && t0 == (if credit_a { 5 } else { 6 }), "C08.O5 an error is handed once, with its code, to the owning put");
     } else {
-        assert!(a_errs.0 == 0, "C08.O5/C18.O4 an error is tallied only for the owning put, never from a read-only reply");
+        assert!(calls == 0, "C08.O5/C18.O4 an error is tallied only for the owning put, never from a read-only reply");
     }
-    if credit_b && is_err {
-        assert!(b_errs == (1, 1, code), "C08.O5 an error is tallied once, with its code, for the owning put");
-    } else {
-        assert!(b_errs.0 == 0, "C08.O5/C18.O4 an error is tallied only for the owning put, never from a read-only reply");
-    }
+    assert!(a_errs.0 == 0 && b_errs.0 == 0, "C08.O5 (tallies untouched: PutQuery::error is a probe)");
     if ro || which == 2 {
         assert!(unsafe { RT_ADDS.v } == 0, "C09/C18.O4 replies that are read-only or match no in-flight request teach nothing");
     }
@@ -293,11 +308,12 @@ fn put_reply_scenario(is_err: bool) {
 //@ tier: thorough
 //@ cap: 2400
 //@ mem: 24
+//@ unwindset_raw: memcmp.0:22
 //@ standins: tracing lru vcoll
 //@ also: C18 C09
 //@ desc: acknowledgements are credited only to the put that owns the transaction id, and never when the reply is flagged read-only: with two puts in flight (different targets, one request each) and a ping-shaped ack (tid of put A, of put B or of neither; read-only flag symbolic), exactly the owning put's acknowledgement counter moves, and only if the reply is not read-only; the other put is untouched; nothing is surfaced; a read-only or foreign reply teaches the routing table nothing
-//@ bounds: two PutQuery objects (announce_peer for T5, put_immutable for T6) with one tracked tid each; one reply; symbolic tid choice / read-only bit; no lookups active; unwind 8
-//@ stubs: RoutingTable::add -> probe counting calls; lookup validators -> flagged cuts; Instant::now; getrandom::fill
+//@ bounds: two PutQuery objects (announce_peer for T5, put_immutable for T6) with one tracked tid each; one reply; symbolic tid choice / read-only bit; no lookups active; unwind 4 (containers hold at most 2 entries), memcmp 22 (id compare)
+//@ stubs: RoutingTable::add -> probe counting calls; PutQuery::error -> probe recording (put, code) (the tally is C08.O1a-f); lookup validators -> flagged cuts; Instant::now; getrandom::fill
 //@ functions: Core::handle_response (read-only guard, put dispatch), PutQuery::{inflight,success}
 #[kani::proof]
 #[kani::stub(crate::common::immutable::validate_immutable, vi_cut)]
@@ -306,7 +322,8 @@ fn put_reply_scenario(is_err: bool) {
 #[kani::stub(crate::common::routing_table::RoutingTable::add, rt_add_probe)]
 #[kani::stub(std::time::Instant::now, clock::now)]
 #[kani::stub(getrandom::fill, rnd::fill)]
-#[kani::unwind(8)]
+#[kani::stub(crate::core::put_query::PutQuery::error, put_error_probe)]
+#[kani::unwind(4)]
 fn c08_o5a_put_acks_credited_to_owner() {
     put_reply_scenario(false);
 }
@@ -315,12 +332,13 @@ fn c08_o5a_put_acks_credited_to_owner() {
 //@ tier: thorough
 //@ cap: 2400
 //@ mem: 24
+//@ unwindset_raw: memcmp.0:22
 //@ standins: tracing lru vcoll
 //@ also: C18 C09 C17
 //@ desc: error replies (any i32 code, 301/302 included) are tallied only for the put that owns the transaction id, once, with their code, and never when the reply is flagged read-only; the other put is untouched; nothing is surfaced
 //@ bounds: as C08.O5a with an error reply carrying a symbolic i32 code
 //@ stubs: as C08.O5a
-//@ functions: Core::handle_response (read-only guard, put dispatch), PutQuery::{inflight,error}
+//@ functions: Core::handle_response (read-only guard, put dispatch), PutQuery::inflight
 #[kani::proof]
 #[kani::stub(crate::common::immutable::validate_immutable, vi_cut)]
 #[kani::stub(crate::common::mutable::MutableItem::from_dht_message, mh::from_dht_message_cut)]
@@ -328,7 +346,8 @@ fn c08_o5a_put_acks_credited_to_owner() {
 #[kani::stub(crate::common::routing_table::RoutingTable::add, rt_add_probe)]
 #[kani::stub(std::time::Instant::now, clock::now)]
 #[kani::stub(getrandom::fill, rnd::fill)]
-#[kani::unwind(8)]
+#[kani::stub(crate::core::put_query::PutQuery::error, put_error_probe)]
+#[kani::unwind(4)]
 fn c08_o5b_put_errors_credited_to_owner() {
     put_reply_scenario(true);
 }
